@@ -123,6 +123,11 @@ def _find_base(max_count, num_reserved, uint_max):
         )
     if base < 1.000000001:
         raise ValueError("Calculated base is 1.0. Raise max_count")
+    # Newton's method does not always converge (e.g. num_reserved close to uint_max).
+    # Make sure the largest counter really decodes to max_count with this base
+    M = float64(max_count) - float64(num_reserved)
+    if abs(_func(base, max_count, num_reserved, uint_max)) > 1e-9 * M * base:
+        raise ValueError("No base found for which the largest counter equals max_count")
     return base
 
 
